@@ -2341,7 +2341,7 @@ class sptensor:
                 self.subs = np.concatenate(
                     (
                         self.subs,
-                        np.ones(
+                        np.zeros(
                             (self.subs.shape[0], grow_size),
                             dtype=int,
                         ),
